@@ -27,3 +27,4 @@ def check(ctx):
     ctx.floor("APICOMPAT-import", 30)
     ctx.floor("APICOMPAT-super", 5)
     ctx.floor("APICOMPAT-abstract", 10)
+    apicompat.base_instance_state(ctx)
